@@ -579,4 +579,262 @@ theorem run_wires_pot (topo : Topo) (k v : Nat) :
       simp only [inputs, List.map_cons, List.sum_cons] at *
       omega
 
+/-! ### what every entity and event of a run carries -/
+
+def Ev.pkt : Ev → Pkt
+  | .hop _ p => p
+  | .wire f => f.pkt
+  | .app _ p _ _ => p
+
+/-- every datagram in flight, waiting, or logged satisfies `P` -/
+structure Carries (P : Pkt → Prop) (s : State) : Prop where
+  flight : ∀ f ∈ s.flight, P f.pkt
+  pend : ∀ p ∈ s.pend, P p.pkt
+  log : ∀ e ∈ s.log, P e.pkt
+
+def Choice.InputOk (P : Pkt → Prop) : Choice → Prop
+  | .send _ pkt => P pkt
+  | .inject f => P f.pkt
+  | _ => True
+
+theorem step_carries {topo : Topo} {P : Pkt → Prop} (hP : ∀ pkt v, P pkt → P (pkt.withTtl v))
+    {s s' : State} {c : Choice} (h : step topo s c = .ok s') (inv : Carries P s) (hc : c.InputOk P) :
+    Carries P s' := by
+  cases c with
+  | deliver i =>
+    simp only [step] at h
+    split at h
+    · cases h
+    · rename_i fl ps evs hcore
+      simp only [Except.ok.injEq] at h
+      subst h
+      have sp := deliverCore_spec hcore
+      have hfl : ∀ f ∈ s.flight.eraseIdx i, P f.pkt := fun f hf => inv.flight f (List.mem_of_mem_eraseIdx hf)
+      cases sp with
+      | noFrame _ => exact ⟨inv.flight, by simpa using inv.pend, by simpa using inv.log⟩
+      | gone f hf => exact ⟨hfl, by simpa using inv.pend, by simpa using inv.log⟩
+      | app f n nd σ port data hf _ _ =>
+        have hPf := inv.flight f (List.mem_of_getElem? hf)
+        refine ⟨hfl, by simpa using inv.pend, ?_⟩
+        intro e he
+        simp only [List.mem_append, List.mem_singleton] at he
+        rcases he with he | rfl
+        · exact inv.log e he
+        · exact hPf
+      | hopDrop f n hf =>
+        have hPf := inv.flight f (List.mem_of_getElem? hf)
+        refine ⟨hfl, by simpa using inv.pend, ?_⟩
+        intro e he
+        simp only [List.mem_append, List.mem_singleton] at he
+        rcases he with he | rfl
+        · exact inv.log e he
+        · exact hPf
+      | hopFwd f n nd σ p hf _ _ hr =>
+        have hPf := inv.flight f (List.mem_of_getElem? hf)
+        obtain ⟨v, hp, _⟩ := routerDemux_some hr
+        refine ⟨hfl, ?_, ?_⟩
+        · intro q hq
+          simp only [List.mem_append, List.mem_singleton] at hq
+          rcases hq with hq | rfl
+          · exact inv.pend q hq
+          · rw [hp]; exact hP _ _ hPf
+        · intro e he
+          simp only [List.mem_append, List.mem_singleton] at he
+          rcases he with he | rfl
+          · exact inv.log e he
+          · exact hPf
+  | resolved j mac =>
+    simp only [step] at h
+    split at h
+    · simp only [Except.ok.injEq] at h; subst h; exact inv
+    · rename_i p hp
+      split at h
+      · cases h
+      · rename_i fs evs hcore
+        simp only [Except.ok.injEq] at h
+        subst h
+        have hPp := inv.pend p (List.mem_of_getElem? hp)
+        have hpd : ∀ q ∈ s.pend.eraseIdx j, P q.pkt := fun q hq => inv.pend q (List.mem_of_mem_eraseIdx hq)
+        rcases resolveCore_spec hcore with ⟨rfl, rfl⟩ | ⟨f, rfl, rfl, he⟩
+        · exact ⟨by simpa using inv.flight, hpd, by simpa using inv.log⟩
+        · have hf := (emit_some he).1
+          refine ⟨?_, hpd, ?_⟩
+          · intro g hg
+            simp only [List.mem_append, List.mem_singleton] at hg
+            rcases hg with hg | rfl
+            · exact inv.flight g hg
+            · rw [hf]; exact hPp
+          · intro e hev
+            simp only [List.mem_append, List.mem_singleton] at hev
+            rcases hev with hev | rfl
+            · exact inv.log e hev
+            · simp only [Ev.pkt]; rw [hf]; exact hPp
+  | unresolved j =>
+    simp only [step, Except.ok.injEq] at h
+    subst h
+    exact ⟨inv.flight, fun q hq => inv.pend q (List.mem_of_mem_eraseIdx hq), inv.log⟩
+  | send hh pkt =>
+    simp only [step, Except.ok.injEq] at h
+    subst h
+    refine ⟨inv.flight, ?_, inv.log⟩
+    intro q hq
+    simp only [List.mem_append] at hq
+    rcases hq with hq | hq
+    · exact inv.pend q hq
+    · rcases sendCore_spec topo hh pkt with e | ⟨p, nd, e, _, _, hpk, _⟩
+      · rw [e] at hq; cases hq
+      · rw [e] at hq; simp only [List.mem_singleton] at hq; subst hq; rw [hpk]; exact hc
+  | inject f =>
+    simp only [step, Except.ok.injEq] at h
+    subst h
+    refine ⟨?_, inv.pend, ?_⟩
+    · intro g hg
+      simp only [List.mem_append, List.mem_singleton] at hg
+      rcases hg with hg | rfl
+      · exact inv.flight g hg
+      · exact hc
+    · intro e he
+      simp only [List.mem_append, List.mem_singleton] at he
+      rcases he with he | rfl
+      · exact inv.log e he
+      · exact hc
+
+theorem run_carries {topo : Topo} {P : Pkt → Prop} (hP : ∀ pkt v, P pkt → P (pkt.withTtl v)) :
+    ∀ (sched : List Choice) (s s' : State), run topo s sched = .ok s' → Carries P s →
+      (∀ c ∈ sched, c.InputOk P) → Carries P s'
+  | [], s, s', h, inv, _ => by simp [run] at h; subst h; exact inv
+  | c :: cs, s, s', h, inv, hin => by
+    simp only [run] at h
+    split at h
+    · cases h
+    · rename_i s1 h1
+      exact run_carries hP cs s1 s' h (step_carries hP h1 inv (hin c (by simp)))
+        (fun c' hc' => hin c' (by simp [hc']))
+
+theorem carries_empty (P : Pkt → Prop) : Carries P State.empty :=
+  ⟨fun _ hf => by simp [State.empty] at hf, fun _ hf => by simp [State.empty] at hf,
+   fun _ hf => by simp [State.empty] at hf⟩
+
+/-! ### application deliveries -/
+
+theorem tapOwnerFrom_spec : ∀ (nodes : List Node) (i : Nat) (net : NetId) (mac : Mac) (n : Nat) (nd : Node) (σ : Slot),
+    tapOwnerFrom i nodes net mac = some (n, nd, σ) →
+      i ≤ n ∧ nodes[n - i]? = some nd ∧ slotOf nd net mac = some σ
+  | [], i, net, mac, n, nd, σ, h => by simp [tapOwnerFrom] at h
+  | x :: rest, i, net, mac, n, nd, σ, h => by
+    simp only [tapOwnerFrom] at h
+    split at h
+    · rename_i σ' hs
+      simp only [Option.some.injEq, Prod.mk.injEq] at h
+      obtain ⟨rfl, rfl, rfl⟩ := h
+      simp [hs]
+    · have ih := tapOwnerFrom_spec rest (i + 1) net mac n nd σ h
+      obtain ⟨h1, h2, h3⟩ := ih
+      refine ⟨by omega, ?_, h3⟩
+      have : n - i = (n - (i + 1)) + 1 := by omega
+      rw [this]; simpa using h2
+
+theorem tapOwner_spec {topo : Topo} {net : NetId} {mac : Mac} {n : Nat} {nd : Node} {σ : Slot}
+    (h : tapOwner topo net mac = some (n, nd, σ)) : topo.nodes[n]? = some nd ∧ slotOf nd net mac = some σ := by
+  have := tapOwnerFrom_spec topo.nodes 0 net mac n nd σ h
+  simpa using this.2
+
+/-- what a logged application delivery certifies -/
+def AppFact (topo : Topo) : Ev → Prop
+  | .app n pkt port data => ∃ nd, topo.nodes[n]? = some nd ∧ ipv4Demux n nd pkt = .ok (.app port data)
+  | _ => True
+
+theorem step_appFact {topo : Topo} {s s' : State} {c : Choice} (h : step topo s c = .ok s')
+    (inv : ∀ e ∈ s.log, AppFact topo e) : ∀ e ∈ s'.log, AppFact topo e := by
+  cases c with
+  | deliver i =>
+    simp only [step] at h
+    split at h
+    · cases h
+    · rename_i fl ps evs hcore
+      simp only [Except.ok.injEq] at h
+      subst h
+      intro e he
+      simp only [List.mem_append] at he
+      rcases he with he | he
+      · exact inv e he
+      · have sp := deliverCore_spec hcore
+        cases sp with
+        | noFrame _ => cases he
+        | gone f hf => cases he
+        | app f n nd σ port data hf ho hd =>
+          simp only [List.mem_singleton] at he; subst he
+          exact ⟨nd, (tapOwner_spec ho).1, hd⟩
+        | hopDrop f n hf => simp only [List.mem_singleton] at he; subst he; trivial
+        | hopFwd f n nd σ p hf _ _ hr => simp only [List.mem_singleton] at he; subst he; trivial
+  | resolved j mac =>
+    simp only [step] at h
+    split at h
+    · simp only [Except.ok.injEq] at h; subst h; exact inv
+    · split at h
+      · cases h
+      · rename_i fs evs hcore
+        simp only [Except.ok.injEq] at h
+        subst h
+        intro e he
+        simp only [List.mem_append] at he
+        rcases he with he | he
+        · exact inv e he
+        · rcases resolveCore_spec hcore with ⟨rfl, rfl⟩ | ⟨f, rfl, rfl, _⟩
+          · cases he
+          · simp only [List.mem_singleton] at he; subst he; trivial
+  | unresolved j => simp only [step, Except.ok.injEq] at h; subst h; exact inv
+  | send hh pkt => simp only [step, Except.ok.injEq] at h; subst h; exact inv
+  | inject f =>
+    simp only [step, Except.ok.injEq] at h
+    subst h
+    intro e he
+    simp only [List.mem_append, List.mem_singleton] at he
+    rcases he with he | rfl
+    · exact inv e he
+    · trivial
+
+theorem run_appFact {topo : Topo} :
+    ∀ (sched : List Choice) (s s' : State), run topo s sched = .ok s' →
+      (∀ e ∈ s.log, AppFact topo e) → ∀ e ∈ s'.log, AppFact topo e
+  | [], s, s', h, inv => by simp [run] at h; subst h; exact inv
+  | c :: cs, s, s', h, inv => by
+    simp only [run] at h
+    split at h
+    · cases h
+    · rename_i s1 h1
+      exact run_appFact cs s1 s' h (step_appFact h1 inv)
+
+/-- an application only ever sees a whole datagram whose destination address has a UDP listen
+    binding on that machine (exact or wildcard) and whose port is bound; the data are the bytes
+    after the UDP header -/
+theorem ipv4Demux_app {n : Nat} {nd : Node} {pkt : Pkt} {port : Nat} {data : List UInt8}
+    (h : ipv4Demux n nd pkt = .ok (.app port data)) :
+    findBind nd.binds pkt.hdr.dst (protoClass pkt.hdr.proto) = some .udp ∧ isWhole pkt.hdr = true ∧
+      data = pkt.payload.drop 8 ∧
+      (nd.udpPorts.contains (pkt.hdr.dst, port) || nd.udpPorts.contains (0, port)) = true := by
+  unfold ipv4Demux at h
+  split at h
+  · cases h
+  · rename_i up hb
+    split at h
+    · rename_i hw
+      split at h
+      · simp only [Except.ok.injEq] at h
+        unfold udpDemux at h
+        split at h
+        · rename_i a b c d e f g hh data' hpay
+          simp only [] at h
+          split at h
+          · rename_i hport
+            simp only [Demuxed.app.injEq] at h
+            obtain ⟨rfl, rfl⟩ := h
+            exact ⟨hb, hw, by simp [hpay], hport⟩
+          · cases h
+        · cases h
+      · split at h
+        · cases h
+        · simp only [Except.ok.injEq] at h; cases h
+    · cases h
+
 end Elvis.Router
